@@ -120,19 +120,36 @@ def check_assignment(ctx, rule, name, fv, cv, base=None, cli=False, as_object=Fa
         # the caller may hand over an Options object instead of a dict (Election accepts both)
         from droop.options import Options
         SEQ[1] += 1
-        if SEQ[1] % 2:
+        if SEQ[1] % 3 == 1:
             oo = Options(dict(caller))
         else:
             oo = Options()              # built up piecemeal, as a long-lived caller would
             for k, v in caller.items():
                 oo.update(k, v)
             ctx.count('options_objects_built_incrementally')
+            if SEQ[1] % 3 == 2 and file_tokens and not file_base:
+                # ... including the ballot-file layer, filled through update(name, value, file_options=True) instead of [droop] text
+                text = PROFILE % ''
+                oo.update(name, fv, file_options=True)
+                ctx.count('file_layer_filled_through_update')
         run = do_count(text, None, budget=5.0, render=True, options_object=oo)
     else:
         run = do_count(text, dict(caller), budget=5.0, render=True)
     if run.error is not None:
         if isinstance(run.error, UsageError):
             ctx.count('assignment_refused_by_constructor')
+            # a refusal must be about the value that takes effect: if the caller alone supplying that value is accepted, a value
+            # shadowed in a lower layer cannot be a reason to refuse
+            eff = cv if cv is not None else fv
+            if fv is not None and cv is not None and not cli and not as_object:
+                alone = dict(rule=rule)
+                alone.update(base or {})
+                alone[name] = eff
+                r2 = do_count(PROFILE % '', alone, budget=5.0)
+                ctx.count('refusals_compared_with_the_effective_value_alone')
+                if r2.error is None and not r2.timed_out:
+                    ctx.violation('precedence:shadowed-value-refused', 'rule %s: %s=%r from the caller is accepted on its own, but with %s=%r in the ballot file '
+                                  '(overridden by the caller) the election is refused: %s' % (rule, name, cv, name, fv, run.error), case)
             return
         ctx.violation('layers:raises:%s' % type(run.error).__name__, 'rule %s with %s=%r (file %r) raised %r in %s'
                       % (rule, name, cv, fv, run.error, run.phase), case)
@@ -349,6 +366,15 @@ def all_assignments():
             for base in bases:
                 for fv, cv in itertools.product([None] + vals, repeat=2):
                     out.append((rule, name, fv, cv, base))
+    # a value the rule would refuse, written in the ballot file but overridden by an acceptable one from the caller: what takes effect
+    # is the caller's value, so the election is set up with it
+    for rule, bad, good in (('wigm', ['safe', 'maybe'], ['none', 'zero']), ('meek', ['zero', 'maybe'], ['none', 'safe']), ('warren', ['zero', 'maybe'], ['none', 'safe'])):
+        for fv in bad:
+            for cv in good:
+                out.append((rule, 'defeat_batch', fv, cv, None))
+    for fv in ('maybe', 'x'):
+        for cv in (True, False):
+            out.append(('wigm', 'integer_quota', fv, cv, None))
     return out
 
 
